@@ -23,7 +23,8 @@ using namespace ceq;
 static double vmax(const Vector& v) { return maxAbs(v); }
 static double mmax(const Matrix& A) { double m = 0; for (int i = 0; i < A.nrow(); ++i) for (int j = 0; j < A.ncol(); ++j) { double a = std::abs(A(i, j)); if (std::isnan(a)) return NAN; if (a > m) m = a; } return m; }
 
-struct Spec { int type; int cls; uint64_t seed; bool enabled; int ref = -1; };   // ref: index of the Weld spec a derived constraint hangs on
+struct Spec { int type; int cls; uint64_t seed; bool enabled; int ref = -1;
+              bool explicitWeld = false; int b1 = 0, b2 = 0; Transform fb, ff; };   // explicitWeld: a Weld with given bodies and frames   // ref: index of the Weld spec a derived constraint hangs on
 
 // homogeneous linear speed coupler (workless): sum a_i u_i = 0
 static bool addLinearSpeedCoupler(Model& M, vh::Rng& g, ConsInfo& ci) {
@@ -38,7 +39,7 @@ static bool addLinearSpeedCoupler(Model& M, vh::Rng& g, ConsInfo& ci) {
 }
 static const int cLinearSpeedCoupler = 100;
 // geometric (not duplicate) redundancy hung on a Weld between bodies (b1,b2) with frames (FB,FF):
-//   cBallOnWeld     Ball(b1, any point, b2, origin of FF): its 3 rows equal the Weld's translational rows
+//   cBallOnWeld     Ball(b1, origin of FB, b2, origin of FF): its 3 rows equal the Weld's translational rows
 //   cPlaneOnWeld    PointInPlane(b1, random normal, h, b2, origin of FF): its row is a linear combination of those rows
 //   cSecondWeld     Weld(b1, FB*X, b2, FF*X): 6 rows spanning the same row space through a different frame pair
 static const int cBallOnWeld = 101, cPlaneOnWeld = 102, cSecondWeld = 103;
@@ -50,8 +51,9 @@ static bool addDerived(Model& M, vh::Rng& g, int type, const ConsInfo& weld, Con
     ci = ConsInfo(); const int b1 = weld.cbodies[0], b2 = weld.cbodies[1];
     const Transform FB = xfFromPar(weld.par, 0), FF = xfFromPar(weld.par, 12);
     ci.cbodies = {b1, b2}; ci.cls = weld.cls;
-    if (type == cBallOnWeld) { ci.type = cBall; ci.c = Constraint::Ball(M.bodies[b1], rvec(g, 0.6), M.bodies[b2], FF.p()); }
-    else if (type == cPlaneOnWeld) { ci.type = cPointInPlane; ci.c = Constraint::PointInPlane(M.bodies[b1], runit(g), g.range(-0.5, 0.5), M.bodies[b2], FF.p()); }
+    if (type == cBallOnWeld) { ci.type = cBall; ci.c = Constraint::Ball(M.bodies[b1], FB.p(), M.bodies[b2], FF.p()); }   // the weld point on both bodies
+    else if (type == cPlaneOnWeld) { ci.type = cPointInPlane; UnitVec3 nn = runit(g);   // height chosen so that the plane contains the weld point: satisfiable together with the Weld
+        ci.c = Constraint::PointInPlane(M.bodies[b1], nn, dot(Vec3(nn), FB.p()), M.bodies[b2], FF.p()); }
     else { ci.type = cWeld; Transform X = rframe(g, 2); ci.c = Constraint::Weld(M.bodies[b1], FB * X, M.bodies[b2], FF * X); }
     return true;
 }
@@ -75,7 +77,12 @@ static Built build(uint64_t treeSeed, int nBodies, const std::vector<Spec>& spec
         if (!include[i]) continue;
         vh::Rng gc(specs[i].seed);
         ConsInfo ci; bool ok;
-        if (specs[i].type >= cBallOnWeld) {
+        if (specs[i].explicitWeld) {
+            ci = ConsInfo(); ci.type = cWeld; ci.cbodies = {specs[i].b1, specs[i].b2};
+            ci.c = Constraint::Weld(M.bodies[specs[i].b1], specs[i].fb, M.bodies[specs[i].b2], specs[i].ff);
+            pushX(ci.par, specs[i].fb); pushX(ci.par, specs[i].ff); ci.cls = pairClass(M, specs[i].b1, specs[i].b2); ok = true;
+        }
+        else if (specs[i].type >= cBallOnWeld) {
             // the Weld it hangs on must have been built (included) already
             int k = -1; for (size_t j = 0; j < B.specIx.size(); ++j) if (B.specIx[j] == specs[i].ref) k = (int)j;
             ok = k >= 0 && addDerived(M, gc, specs[i].type, B.cons[k], ci);
@@ -149,6 +156,23 @@ static void oneCase(uint64_t seed, long caseNo) {
         }
         if (g.below(5) == 0 && (int)specs.size() < 6) { Spec d = s; d.enabled = g.below(4) != 0; specs.push_back(d); ++i; }   // exact duplicate: redundant but consistent
     }
+    // guaranteed share (1 in 6) of geometric redundancy ON the manifold: a Weld whose frames are computed so that it is
+    // satisfied at the chosen q, plus constraints derived from it; nothing else, so that the set is consistent
+    const bool assembledFamily = g.below(6) == 0;
+    if (assembledFamily) {
+        specs.clear();
+        std::vector<Spec> none; std::vector<bool> noneInc;
+        Built P0 = build(treeSeed, nBodies, none, noneInc, forceSeed, euler);
+        {   vh::Rng gs(stateSeed); randomState(*P0.M, gs); }
+        P0.M->system.realize(P0.M->state, Stage::Position);
+        int b1, b2; pickPair(*P0.M, g, 3, b1, b2);
+        const Transform X1 = P0.M->bodies[b1].getBodyTransform(P0.M->state), X2 = P0.M->bodies[b2].getBodyTransform(P0.M->state);
+        Spec w; w.type = cWeld; w.cls = 3; w.seed = g.next(); w.enabled = true; w.explicitWeld = true; w.b1 = b1; w.b2 = b2;
+        w.fb = rframe(g, 2); w.ff = ~X2 * X1 * w.fb;          // same frame in Ground at this q
+        specs.push_back(w);
+        const int kinds[3] = {cBallOnWeld, cPlaneOnWeld, cSecondWeld};
+        for (int kx = 0; kx < 3; ++kx) if (kx == 0 || g.coin()) { Spec d; d.type = kinds[kx]; d.cls = 3; d.seed = g.next(); d.enabled = g.below(4) != 0; d.ref = 0; specs.push_back(d); }
+    }
     bool anyEnabled = false; for (auto& s : specs) anyEnabled = anyEnabled || s.enabled;
     if (!anyEnabled) specs[0].enabled = true;
     std::vector<bool> all(specs.size(), true), onlyEnabled(specs.size());
@@ -160,15 +184,16 @@ static void oneCase(uint64_t seed, long caseNo) {
     for (size_t k = 0; k < A.cons.size(); ++k) if (!specs[A.specIx[k]].enabled) { A.cons[k].c.disable(M.state); anyDisabled = true; }
     M.system.realizeModel(M.state);
     {   vh::Rng gs(stateSeed); randomState(M, gs); M.state.updTime() = gs.range(0.0, 2.0); }
-    const bool wantManifold = g.coin();
+    const bool wantManifold = assembledFamily || g.coin();
     std::string icls = "violated";
     if (wantManifold) {
         bool ok = true;
-        try { M.system.project(M.state, 1e-11); } catch (const std::exception&) { ok = false; }
+        try { M.system.project(M.state, 1e-11); } catch (const std::exception& e) { ok = false; if (std::getenv("CEQ_DEBUG") && assembledFamily) std::fprintf(stderr, "case %ld project threw: %.300s\n", caseNo, e.what()); }
         if (ok) {
             M.system.realize(M.state, Stage::Velocity);
             const double eq = maxAbs(M.state.getQErr()), eu = maxAbs(M.state.getUErr()), bq = maxAbs(M.state.getQ()), bu = maxAbs(M.state.getU());
             if (eq < 1e-9 && eu < 1e-9 && bq < 1e3 && bu < 1e3) icls = "onManifold";
+            else if (std::getenv("CEQ_DEBUG") && assembledFamily) std::fprintf(stderr, "case %ld project ok but eq=%g eu=%g bq=%g bu=%g\n", caseNo, eq, eu, bq, bu);
         }
         if (icls != "onManifold") { vh::Rng gs(stateSeed); randomState(M, gs); M.state.updTime() = gs.range(0.0, 2.0); }
     }
@@ -198,6 +223,7 @@ static void oneCase(uint64_t seed, long caseNo) {
     vh::D("chk." + icls + "." + tag + ".m" + std::to_string(std::min(m, 12)));
     tagBodies(M);
     for (size_t k = 0; k < A.cons.size(); ++k) if (specs[A.specIx[k]].type >= cBallOnWeld && specs[A.specIx[k]].enabled) vh::D("derivedRedundancy." + icls);
+    if (assembledFamily) vh::D("assembledWeldFamily." + icls);
     for (auto& ci : A.cons) vh::D(std::string("type.") + (ci.type == cSpeedCoupler && ci.fn && ci.fn->c == 0 && ci.cq.empty() ? "SpeedCouplerLinear" : consName(ci.type)));
     const double fscale = std::max(1.0, std::max(vmax(feff), mmax(Mm) * vmax(d.udot)));
     const bool finite = !std::isnan(vmax(d.udot)) && !std::isnan(vmax(d.lambda));
@@ -284,6 +310,7 @@ static void oneCase(uint64_t seed, long caseNo) {
             const double verr = vmax(s.getUErr());
             const double slack = 2 * l1 * verr + 1e-11 * std::max(1.0, l1 * mmax(G) * vmax(s.getU()) * nu);
             vh::P("power_zero", std::string("onManifold.workless.power"), std::abs(p) / slack, 1.0);
+            vh::D("power.evaluated");
         }
     }
     // ---- model records
